@@ -7,6 +7,7 @@ INVARIANTS = ["ReadCorrect", "FreshIsClean", "NothingPinnedAfterFit", "CostNodeS
 PROPERTIES = ["ReadsAreSilent", "RejectLeavesUnchanged"]
 TYPES = ["xy", "indexed", "hist", "unbinned"]
 LEAN_OFF = ("rejects", "Limit", "Unlimit", "Release")
+READ_MUT_OFF = ("rejects", "Limit", "Unlimit", "Release", "SetParam")
 TOGGLE_OFF = ("rejects", "Limit", "Unlimit", "Release", "Fix", "SetParam", "SetAllParams", "SetData", "AddConstraint", "Read")
 
 
@@ -14,6 +15,7 @@ def stages(tier):
     # mc depth, [(label, depth, max_sources, off, simulate, cap)]
     if tier == "quick":
         return 5, [("2 steps, all actions", 2, 2, (), None, 1000), ("4 steps: add / disable / enable / fit", 4, 1, TOGGLE_OFF, None, 400),
+                   ("3 steps, every mutator, reads of cost / total_error / total_cov in between", 3, 1, READ_MUT_OFF, None, 3500),
                    ("simulate", 9, 2, ("rejects",), (14, 9), 1500)]
     return 6, [("3 steps, all actions", 3, 2, (), None, 30000), ("4 steps, lean", 4, 2, LEAN_OFF, None, 30000),
                ("simulate", 12, 3, ("rejects",), (150, 12), 30000)]
@@ -42,7 +44,8 @@ def run(tier, seed, faults=(), types=TYPES, prop="C03"):
                               dict(spec="FitCache", graph=g, tlc_trace=mc.get("trace")))
                 return rep
             for label, depth, ms, off, sim, cap in plan:
-                c = fg.cfg_constants(g, dea, depth, max_sources=ms, off=off, faults=faults)
+                c = fg.cfg_constants(g, dea, depth, max_sources=ms, off=off, faults=faults,
+                                     obs_filter=("cost", "total_error", "total_cov") if "reads of" in label else ())
                 simulate = (sim[0], sim[1], seed + 1) if sim else None
                 raw = cm.run_replay_stage(rep, "GenFCRun", cm.gen_cfg(c), replay_walk, "%s/%s: %s" % (ftype, dea, label), simulate=simulate,
                                           extra_files=mod, max_histories=cap, seed=seed, chunk=25)
